@@ -910,7 +910,7 @@ pub fn stress_parts(id: &str) -> Vec<StressPart> {
     let p = |kind, quick, thorough, async_pct| StressPart { force_collide: false, kind, quick, thorough, async_pct };
     let pc = |kind, quick, thorough, async_pct| StressPart { force_collide: true, kind, quick, thorough, async_pct };
     match id {
-        "C02" => vec![p(Kind::Invariants, 640, 12000, 25), p(Kind::Validated, 200, 4000, 25), pc(Kind::Invariants, 1200, 12000, 25)],
+        "C02" => vec![p(Kind::Invariants, 640, 12000, 25), p(Kind::Validated, 200, 4000, 25), pc(Kind::Invariants, 2400, 20000, 25)],
         "C17" => vec![p(Kind::Invariants, 640, 12000, 25), p(Kind::Lookups, 240, 4000, 35)],
         "C01" | "C06" => vec![p(Kind::Invariants, 640, 12000, 25)],
         "C08" => vec![p(Kind::Invariants, 640, 12000, 25), p(Kind::Close, 640, 10000, 30)],
@@ -919,7 +919,7 @@ pub fn stress_parts(id: &str) -> Vec<StressPart> {
         "C05" => vec![p(Kind::Reclaim, 96, 2000, 50)],
         "C09" => vec![p(Kind::Validated, 480, 8000, 25)],
         "C15" => vec![p(Kind::Lookups, 480, 8000, 35)],
-        "C18" => vec![pc(Kind::Invariants, 1600, 16000, 25)],
+        "C18" => vec![pc(Kind::Invariants, 4800, 40000, 25)],
         "C13" => vec![p(Kind::Lookups, 320, 6000, 35)],
         "C10" => vec![p(Kind::Barrier, 640, 12000, 25), p(Kind::WaitRace, 640, 12000, 25)],
         "C12" => vec![p(Kind::Close, 960, 16000, 30)],
@@ -972,11 +972,72 @@ pub fn run_stress_part(prop: &str, part: &StressPart, tier: &str, seed: u64, sta
     let strat = stress::stress_strategy(part.kind, part.async_pct);
     let mut cases: Vec<StressCase> = sample_values(&strat, n, seed.wrapping_mul(31).wrapping_add(part.kind as u64 + 1 + 1000 * part.force_collide as u64));
     if part.force_collide {
+        // a third of the cases: remover storm - one writer alternates the two keys of a pair
+        // (insert a; wait; insert b; wait; lookups of b), the other threads keep removing a
+        let mut storm: Vec<bool> = vec![false; cases.len()];
+        for (ci, c) in cases.iter_mut().enumerate() {
+            if ci % 3 != 0 || c.threads.len() < 3 {
+                continue;
+            }
+            storm[ci] = true;
+            let rounds = 6;
+            let mut w = Vec::new();
+            for r in 0..rounds {
+                // (an hour of TTL never runs out here, but it makes removes work on the expiry index)
+                w.push(stress::SOp::Insert { k: 0, cost: 1, ttl_ms: 3_600_000 });
+                w.push(stress::SOp::Wait);
+                w.push(stress::SOp::Spin(200 + 300 * (r as u16 % 3)));
+                if r % 2 == 0 {
+                    w.push(stress::SOp::Remove { k: 0 });
+                }
+                w.push(stress::SOp::Insert { k: 1, cost: 1, ttl_ms: 0 });
+                w.push(stress::SOp::Wait);
+                for _ in 0..4 {
+                    w.push(stress::SOp::Get { k: 1 });
+                    w.push(stress::SOp::Spin(400));
+                }
+            }
+            let n = c.threads.len();
+            c.threads[0] = w;
+            for t in 1..n {
+                let mut v = Vec::new();
+                for i in 0..(rounds * 6) {
+                    v.push(stress::SOp::Remove { k: 0 });
+                    if i % 3 == t % 3 {
+                        v.push(stress::SOp::Spin(150));
+                    }
+                }
+                c.threads[t] = v;
+            }
+        }
         // two colliding pairs only, and half of the plain lookups through get_mut
-        for c in cases.iter_mut() {
+        for (ci, c) in cases.iter_mut().enumerate() {
             c.cfg.collide = true;
+            // ample capacity and no TTLs: a resident value then leaves only through an operation
+            // on its own key or a clear()
+            c.cfg.max_cost = 1 << 40;
+            // a wait() after every remove: its Delete item is then applied before the thread goes on
+            for (ti, t) in c.threads.iter_mut().enumerate() {
+                let _ = (ti, &storm);
+                let mut v = Vec::with_capacity(t.len() + 8);
+                for op in t.drain(..) {
+                    let rm = matches!(op, stress::SOp::Remove { .. });
+                    v.push(op);
+                    if rm {
+                        v.push(stress::SOp::Wait);
+                    }
+                }
+                *t = v;
+            }
             for t in c.threads.iter_mut() {
                 for (i, op) in t.iter_mut().enumerate() {
+                    if let stress::SOp::Insert { ttl_ms, .. } = op {
+                        // nothing expires within a case
+                        *ttl_ms = if *ttl_ms == 0 { 0 } else { 3_600_000 };
+                    }
+                    if matches!(op, stress::SOp::UpdateMax { .. }) {
+                        *op = stress::SOp::Spin(100);
+                    }
                     match op {
                         stress::SOp::Insert { k, .. } | stress::SOp::Iip { k, .. } | stress::SOp::Remove { k } | stress::SOp::GetMut { k } | stress::SOp::GetLinger { k, .. } => *k %= 4,
                         stress::SOp::Get { k } => {
